@@ -144,6 +144,10 @@ class Gen:
             if f < 0.6:
                 return S.call('IF', [cond, self.expr(home, own, depth + 1), self.expr(home, own, depth + 1)])
             if f < 0.8:
+                if rng.random() < 0.35:      # three arguments, the middle one an error value for some inputs (x/y with y = 0)
+                    x, y = self.any_ref(home), self.any_ref(home)
+                    g = rng.choice(['AND', 'OR'])
+                    return S.call(g, [S.bin_('>' if g == 'AND' else '=', y, S.num('0')), S.bin_('>', S.bin_('/', x, y), S.num('1')), S.bin_('<', x, S.num('100'))])
                 return S.call(rng.choice(['AND', 'OR']), [cond, S.bin_('>', self.any_ref(home), S.num('0'))])
             return S.call('NOT', [cond])
         f = rng.choice(['LEN', 'UPPER', 'ISNUMBER', 'ISTEXT', 'ISBLANK', 'ISERROR', 'LEFT', 'CONCAT', 'EXACT',
@@ -395,7 +399,28 @@ def drive(seed, work, mix='c04'):
         if not small(stored) and stored.get('t') != 'exc':
             stored = None
         hist.append([tag, a])
-        events.append(event_for(gen, content, key, res, stored if res.get('t') != 'exc' else None, {'seed': seed, 'history': list(hist)}))
+        e = event_for(gen, content, key, res, stored if res.get('t') != 'exc' else None, {'seed': seed, 'history': list(hist)})
+        if mix == 'c04' and m is model and any(h[0] in ('set', 'set-by-name') for h in hist):
+            # C04 as it is stated: the response equals that of a FRESHLY COMPILED model holding the current contents - also where the
+            # specification leaves the value open (AND / OR with an error value among the arguments, functions it does not model)
+            try:
+                pc = {W.addr(k): (xl.from_abs(v, 'native') if kind == 'const' else S.formula(S.min_paren(v))) for k, (kind, v) in content.items()
+                      if not (kind == 'const' and v.get('t') == 'blank')}
+                fm = W.build_model(pc, names, via='xlsx' if names else 'dict', work=work)
+                try:
+                    fr = xl.to_abs(L.Evaluator(fm).evaluate(a))
+                except BaseException as ex:      # noqa
+                    if isinstance(ex, (KeyboardInterrupt, SystemExit)):
+                        raise
+                    fr = {'t': 'exc', 'cls': xl.to_abs(ex).get('cls', '?')}
+                if fr.get('t') != 'exc' and not small(fr):
+                    fr = {'t': 'other', 'of': fr.get('t')}
+                e['fresh'] = fr
+            except xl.MachineryError:
+                raise
+            except BaseException:      # noqa  (the fresh workbook does not build: nothing to compare with)
+                pass
+        events.append(e)
 
     nsteps = rng.randint(5, 10)
     for step in range(nsteps):
@@ -506,6 +531,9 @@ def features(e, x, v):
     return {'verdict': v, 'top': a.get('f') or a.get('op') or a['k'], 'history_ops': ops}
 
 
+from harness.agree import agrees
+
+
 def run_driver(run, count, name='wbdrive', mix='c04'):
     """drive `count` random workbooks; TLC judges every evaluation; returns Counter of verdicts"""
     import collections
@@ -521,6 +549,17 @@ def run_driver(run, count, name='wbdrive', mix='c04'):
         run.disagree('driver', {k: f[k] for k in f if k != 'build_failed'}, 'the workbook builds and the call returns', f['build_failed'],
                      {'clause': 'call-raised', 'what': f['build_failed'].split(':')[0][:60]}, clause='call-raised')
     run.evaluations += len(events)
+    nfresh = 0
+    for e in events:
+        if 'fresh' in e:
+            nfresh += 1
+            a, b = e['res'], e['fresh']
+            same = a == b or (a.get('t') != 'exc' and b.get('t') != 'exc' and a.get('t') != 'other' and b.get('t') != 'other'
+                              and agrees(a, b) is not False and agrees(b, a) is not False) or (a.get('t') == 'other' and b.get('t') == 'other')
+            if not same:
+                run.disagree('driver', {k: e[k] for k in ('addr', 'text', 'meta', 'cells')}, {'the response of a freshly compiled model with the current contents': b}, a,
+                             {'clause': 'differs-from-fresh-model', 'observed': a.get('t'), 'fresh': b.get('t')}, clause='differs-from-fresh-model')
+    run.notes[name + '_compared_with_fresh_model'] = nfresh
     clean = [{k: e[k] for k in ('ast', 'sheet', 'cells', 'names', 'res', 'addr', 'text', 'meta')} | ({'stored': e['stored']} if 'stored' in e else {}) for e in events]
     res = trace.validate(run, clean, module='Trace_Local', name=name, kind='driver', features=features, batch=3000)
     verdicts = collections.Counter(v for _, v, _ in res)
